@@ -856,7 +856,7 @@ def token_value(g: L.G, rule: str) -> dict:
     if rule == 'DATE':
         return {'vt': 'date', 'v': D.date_value(g).isoformat()}
     if rule == 'NUMBER':
-        return {'vt': 'dec', 'v': str(abs(D.decimal_value(g)))}
+        return {'vt': 'dec', 'v': str(D.decimal_value(g).copy_abs())}
     if rule == 'ACCOUNT':
         return {'vt': 'str', 'v': g.account()[1]}
     if rule == 'CURRENCY':
